@@ -1,2 +1,150 @@
-(* Proofs/BedProofsC.v *)
+(* Proofs/BedProofsC.v — the reader on written text: one line, files of
+   records sharing one N, field counts, refusal outside 3..12. *)
 From Bio Require Import Base.
+From Bio.Model Require Import Bed.
+From Bio.Spec Require Import BedSpec.
+From Bio.Proofs Require Import BedProofs BedProofsB.
+
+Lemma drop_cr_nob s : nob CR s -> drop_cr s = s.
+Proof.
+  induction s as [|c r IH]; intros H; [reflexivity|].
+  inversion H as [|? ? Hc Hr]; subst.
+  destruct r as [|c' r'].
+  - cbn [drop_cr]. unfold CR in Hc. rewrite Hc. reflexivity.
+  - change (drop_cr (c :: c' :: r')) with (c :: drop_cr (c' :: r')). rewrite (IH Hr). reflexivity.
+Qed.
+
+Lemma do_line_written n b : bed_ok b -> (n = 0 \/ n = Z.to_nat (b_n b))%nat ->
+  do_line n (line_of b) = Yield (first_n b) (Z.to_nat (b_n b)).
+Proof.
+  intros Hok Hn. pose proof Hok as [Hr Hf].
+  unfold do_line. rewrite drop_cr_nob by (apply line_nob; [exact Hok | discriminate | reflexivity]).
+  destruct (line_head b Hr) as [rest E].
+  destruct (line_of b) as [|c l] eqn:EL.
+  { exfalso. symmetry in E. exact (app_cons_not_nil _ _ _ (eq_sym E)). }
+  assert (Hc : (c =? 35) = false).
+  { destruct (b_chrom b) as [|c' r'] eqn:EC; cbn [app] in E; injection E as E1 E2; subst c.
+    - reflexivity.
+    - apply N.eqb_neq. intros ->. destruct Hf as (_ & Hhash & _).
+      cbn [first_n b_chrom] in Hhash. exact (Hhash r' EC). }
+  rewrite Hc, <- EL, (split_line b Hok), (wfields_length b Hr), (parse_line_wfields b Hok).
+  assert (E0 : (Z.to_nat (b_n b) =? 0)%nat = false) by (apply Nat.eqb_neq; lia).
+  destruct Hn as [-> | ->].
+  - cbn [Nat.eqb]. rewrite Nat.eqb_refl. reflexivity.
+  - rewrite E0, Nat.eqb_refl. reflexivity.
+Qed.
+
+(* the text of a file *)
+Definition text_of (bs : list bed) : bytes := concat (map (fun b => line_of b ++ [LF]) bs).
+
+Lemma write_file_text bs : Forall (fun b => (3 <= b_n b <= 12)%Z) bs ->
+  write_file bs = Ok (text_of bs).
+Proof.
+  induction 1 as [|b bs Hb Hbs IH]; [reflexivity|].
+  cbn [write_file]. rewrite (write_line b Hb), IH. reflexivity.
+Qed.
+
+Lemma split_lines ls : Forall (nob LF) ls ->
+  split_on LF (concat (map (fun l => l ++ [LF]) ls)) = ls ++ [[]].
+Proof.
+  induction 1 as [|l ls Hl Hls IH]; [reflexivity|].
+  cbn [map concat]. rewrite <- app_assoc. cbn [app].
+  rewrite split_on_app by exact Hl. rewrite IH. reflexivity.
+Qed.
+
+Lemma rs_lines_text bs : Forall bed_ok bs -> rs_lines (text_of bs) = (map line_of bs, []).
+Proof.
+  intros H. unfold rs_lines, text_of.
+  replace (map (fun b => line_of b ++ [LF]) bs) with (map (fun l => l ++ [LF]) (map line_of bs))
+    by (rewrite map_map; reflexivity).
+  rewrite split_lines.
+  - rewrite removelast_last, last_last. reflexivity.
+  - apply Forall_forall. intros l Hl. apply in_map_iff in Hl. destruct Hl as [b [<- Hb]].
+    rewrite Forall_forall in H. apply line_nob; [apply H, Hb | discriminate | reflexivity].
+Qed.
+
+Lemma dec_lines_written k bs : Forall (fun b => bed_ok b /\ b_n b = k) bs ->
+  forall n, (n = 0 \/ n = Z.to_nat k)%nat ->
+  dec_lines n (map line_of bs) [] TEOF = map (fun b => Rec (first_n b)) bs.
+Proof.
+  induction 1 as [|b bs [Hb Hk] Hbs IH]; intros n Hn; [reflexivity|].
+  cbn [map dec_lines]. rewrite (do_line_written n b Hb) by (rewrite Hk; exact Hn).
+  rewrite Hk. rewrite IH by (right; reflexivity). reflexivity.
+Qed.
+
+Lemma file_roundtrip k bs : Forall (fun b => bed_ok b /\ b_n b = k) bs ->
+  exists w, write_file bs = Ok w /\ decode w TEOF = map (fun b => Rec (first_n b)) bs.
+Proof.
+  intros H. exists (text_of bs).
+  assert (Hok : Forall bed_ok bs) by (eapply Forall_impl; [| exact H]; intros b [A _]; exact A).
+  split.
+  - apply write_file_text. eapply Forall_impl; [| exact Hok]. intros b [A _]; exact A.
+  - unfold decode. rewrite (rs_lines_text bs Hok).
+    apply (dec_lines_written k bs H). left; reflexivity.
+Qed.
+
+Lemma roundtrip b : bed_ok b ->
+  exists w, write b = Ok w /\ decode w TEOF = [Rec (first_n b)].
+Proof.
+  intros H. destruct (file_roundtrip (b_n b) [b]) as [w [Hw Hd]].
+  { constructor; [split; [exact H | reflexivity] | constructor]. }
+  exists w. split; [| exact Hd].
+  cbn [write_file] in Hw. destruct (write b) as [x| |]; try discriminate.
+  rewrite app_nil_r in Hw. exact Hw.
+Qed.
+
+(* ------------------------------------------------------------------ *)
+(* field count                                                          *)
+Lemma count_app x a b : count_byte x (a ++ b) = (count_byte x a + count_byte x b)%nat.
+Proof. unfold count_byte. rewrite filter_app, app_length. reflexivity. Qed.
+
+Lemma count_nob x s : nob x s -> count_byte x s = 0%nat.
+Proof.
+  induction 1 as [|c s Hc Hs IH]; [reflexivity|].
+  unfold count_byte in *. cbn [filter]. rewrite N.eqb_sym, Hc. exact IH.
+Qed.
+
+Lemma count_join x l : l <> [] -> Forall (nob x) l ->
+  count_byte x (join_with [x] l) = (length l - 1)%nat.
+Proof.
+  induction l as [|a l IH]; intros Hne Hl; [congruence|].
+  inversion Hl as [|? ? Ha Hr]; subst.
+  destruct l as [|b r].
+  - cbn [join_with length]. rewrite (count_nob _ _ Ha). reflexivity.
+  - rewrite join_with_cons2, !count_app, (count_nob _ _ Ha), IH by (discriminate || exact Hr).
+    unfold count_byte at 1. cbn [filter]. rewrite N.eqb_refl. cbn [length]. lia.
+Qed.
+
+Lemma field_count b : bed_ok b ->
+  exists line, write b = Ok (line ++ [LF])
+    /\ Z.of_nat (count_byte TAB line) = (b_n b - 1)%Z
+    /\ Z.of_nat (length (split_on TAB line)) = b_n b
+    /\ count_byte LF line = 0%nat /\ count_byte CR line = 0%nat.
+Proof.
+  intros Hok. pose proof Hok as [Hn Hf]. exists (line_of b). split; [apply write_line, Hn|].
+  split; [| split; [| split]].
+  - unfold line_of. rewrite count_join.
+    + rewrite (wfields_length b Hn). lia.
+    + apply wfields_nonnil, Hn.
+    + apply wfields_nob; [exact Hf | reflexivity].
+  - rewrite (split_line b Hok), (wfields_length b Hn). lia.
+  - apply count_nob, line_nob; [exact Hok | discriminate | reflexivity].
+  - apply count_nob, line_nob; [exact Hok | discriminate | reflexivity].
+Qed.
+
+Lemma write_refuses b : (b_n b < 3 \/ b_n b > 12)%Z -> write_calls b = Err /\ write b = Err.
+Proof.
+  intros H. assert (E : write_calls b = Err).
+  { unfold write_calls.
+    assert (C : ((b_n b <? 3) || (b_n b >? 12))%Z = true).
+    { rewrite Z.gtb_ltb. apply orb_true_iff. destruct H; [left | right]; apply Z.ltb_lt; lia. }
+    rewrite C. reflexivity. }
+  split; [exact E|]. unfold write. rewrite E. reflexivity.
+Qed.
+
+(* inside 3..12 Write always succeeds, whatever the fields *)
+Lemma write_accepts b : (3 <= b_n b <= 12)%Z -> exists cs, write_calls b = Ok cs /\ write b = Ok (concat cs).
+Proof.
+  intros H. pose proof (write_line b H) as W. unfold write in *.
+  destruct (write_calls b) as [cs| |]; try discriminate. exists cs. split; reflexivity.
+Qed.
